@@ -19,6 +19,17 @@ CHECKS = {
     ),
 }
 
+CHECKS["C19"] = dict(
+    category="proof",
+    text=("Coq theorem for every outcome history of any length and every version: a feed raises iff it failed and the run of "
+          "consecutive failures ending with it exceeds MAX_WATCHDOG_FAILURES (constants regenerated from the module), success "
+          "clears the count, keep-alive command selection incl. the clear period; tied to the real "
+          "ControllerApplication._watchdog_feed by correspondence over all outcome sequences up to a bound on v4 and v8 and "
+          "long runs over the period boundary."),
+    design_ref="DESIGN.md section 6 C19",
+    technique="Coq proof by induction over outcome histories + model/implementation correspondence",
+)
+
 NOT_YET = {}
 
 
